@@ -124,6 +124,16 @@ pub enum Flag {
 
 pub const MAX_EMIS: usize = 6;
 
+/// how many copies of its error a `validate` node with this id emits (ids 1..=4 -> 1, 2, 4, 8); recovered errors: 1
+#[inline(always)]
+pub const fn emit_weight(id: u8) -> usize {
+    if id == 0xEE {
+        1
+    } else {
+        1usize << ((id.wrapping_sub(1)) & 3)
+    }
+}
+
 #[derive(Copy, Clone, PartialEq, Eq, Debug)]
 pub struct Emi {
     /// 0xEE = recovered syntax error (span.start = furthest failure); otherwise validate id
@@ -146,6 +156,10 @@ pub struct Env<'a> {
     pub t: &'a [u8],
     pub emis: [Emi; MAX_EMIS],
     pub n_emis: usize,
+    /// number of error VALUES the surviving emissions stand for: a `validate` node with id k emits
+    /// `emit_weight(k)` copies (so that the surviving subset is visible in the LENGTH of the error list, which is
+    /// cheap to read, see fam.rs); a recovered syntax error counts 1
+    pub wsum: usize,
     pub far: Far,
     /// permissive-corner selector (see DESIGN 2.2): bit 0 = a trailing separator is consumed when
     /// `at_most` has been reached and `allow_trailing` is set; bit 1 = with zero items, a consumed
@@ -162,6 +176,7 @@ impl<'a> Env<'a> {
             t,
             emis: [Emi { id: 0, start: 0, end: 0 }; MAX_EMIS],
             n_emis: 0,
+            wsum: 0,
             far: Far { set: false, pos: 0, exp: 0, custom: false },
             perm: 0,
             overflow: false,
@@ -194,6 +209,7 @@ impl<'a> Env<'a> {
         }
     }
     fn emit(&mut self, id: u8, start: usize, end: usize) {
+        self.wsum += emit_weight(id);
         if self.n_emis < MAX_EMIS {
             self.emis[self.n_emis] = Emi { id, start: start as u8, end: end as u8 };
             self.n_emis += 1;
@@ -331,39 +347,39 @@ pub fn eval(g: &G, pos: usize, env: &mut Env) -> R {
             Some((x, p3))
         }
         G::Or(a, b) => {
-            let m = env.n_emis;
+            let m = (env.n_emis, env.wsum);
             if let Some(r) = eval(a, pos, env) {
                 return Some(r);
             }
-            env.n_emis = m;
+            (env.n_emis, env.wsum) = m;
             if let Some(r) = eval(b, pos, env) {
                 return Some(r);
             }
-            env.n_emis = m;
+            (env.n_emis, env.wsum) = m;
             None
         }
         G::Or3(a, b, c) => {
-            let m = env.n_emis;
+            let m = (env.n_emis, env.wsum);
             if let Some(r) = eval(a, pos, env) {
                 return Some(r);
             }
-            env.n_emis = m;
+            (env.n_emis, env.wsum) = m;
             if let Some(r) = eval(b, pos, env) {
                 return Some(r);
             }
-            env.n_emis = m;
+            (env.n_emis, env.wsum) = m;
             if let Some(r) = eval(c, pos, env) {
                 return Some(r);
             }
-            env.n_emis = m;
+            (env.n_emis, env.wsum) = m;
             None
         }
         G::OrNot(a) => {
-            let m = env.n_emis;
+            let m = (env.n_emis, env.wsum);
             match eval(a, pos, env) {
                 Some((x, p)) => Some((x.tag(1), p)),
                 None => {
-                    env.n_emis = m;
+                    (env.n_emis, env.wsum) = m;
                     Some((Tr::unit().tag(0), pos))
                 }
             }
@@ -371,10 +387,10 @@ pub fn eval(g: &G, pos: usize, env: &mut Env) -> R {
         G::Not(a) => {
             // negative lookahead: nothing inside leaves a trace (C06 excludes `not` by statement:
             // the failure bookkeeping of a *failing* `not` is pinned by chumsky, not specified)
-            let m = env.n_emis;
+            let m = (env.n_emis, env.wsum);
             let far = env.far;
             let r = eval(a, pos, env);
-            env.n_emis = m;
+            (env.n_emis, env.wsum) = m;
             env.far = far;
             match r {
                 Some(_) => {
@@ -385,11 +401,11 @@ pub fn eval(g: &G, pos: usize, env: &mut Env) -> R {
             }
         }
         G::AndIs(a, b) => {
-            let m = env.n_emis;
+            let m = (env.n_emis, env.wsum);
             let (x, p1) = match eval(a, pos, env) {
                 Some(r) => r,
                 None => {
-                    env.n_emis = m;
+                    (env.n_emis, env.wsum) = m;
                     return None;
                 }
             };
@@ -398,7 +414,7 @@ pub fn eval(g: &G, pos: usize, env: &mut Env) -> R {
             match eval(b, pos, env) {
                 Some(_) => Some((x, p1)),
                 None => {
-                    env.n_emis = m;
+                    (env.n_emis, env.wsum) = m;
                     None
                 }
             }
@@ -424,12 +440,12 @@ pub fn eval(g: &G, pos: usize, env: &mut Env) -> R {
             Some((Tr::unit(), p))
         }
         G::Filter(a, i) => {
-            let m = env.n_emis;
+            let m = (env.n_emis, env.wsum);
             let (x, p) = eval(a, pos, env)?;
             if x.low() > env.tok(i) {
                 Some((x, p))
             } else {
-                env.n_emis = m;
+                (env.n_emis, env.wsum) = m;
                 // chumsky attributes this to the END of the rejected match; the property leaves the
                 // position of a semantic rejection open (C06 harnesses avoid it)
                 env.fail(p, X_ELSE, false);
@@ -437,23 +453,23 @@ pub fn eval(g: &G, pos: usize, env: &mut Env) -> R {
             }
         }
         G::TryMap(a, i) => {
-            let m = env.n_emis;
+            let m = (env.n_emis, env.wsum);
             let (x, p) = eval(a, pos, env)?;
             if x.low() > env.tok(i) {
                 Some((x.tag(7), p))
             } else {
-                env.n_emis = m;
+                (env.n_emis, env.wsum) = m;
                 env.fail(pos, X_NONE, true);
                 None
             }
         }
         G::TryMapWith(a, i) => {
-            let m = env.n_emis;
+            let m = (env.n_emis, env.wsum);
             let (x, p) = eval(a, pos, env)?;
             if x.low() > env.tok(i) {
                 Some((x.tag(7), p))
             } else {
-                env.n_emis = m;
+                (env.n_emis, env.wsum) = m;
                 env.fail(p, X_NONE, true);
                 None
             }
@@ -503,14 +519,14 @@ pub fn eval(g: &G, pos: usize, env: &mut Env) -> R {
         G::Foldl(a, b) => {
             let (mut acc, mut p) = eval(a, pos, env)?;
             loop {
-                let m = env.n_emis;
+                let m = (env.n_emis, env.wsum);
                 match eval(b, p, env) {
                     Some((y, q)) => {
                         acc = acc.cat(y).tag(3);
                         p = q;
                     }
                     None => {
-                        env.n_emis = m;
+                        (env.n_emis, env.wsum) = m;
                         break;
                     }
                 }
@@ -533,11 +549,11 @@ pub fn eval(g: &G, pos: usize, env: &mut Env) -> R {
             Some((x, p))
         }
         G::Recover(a, strat) => {
-            let m = env.n_emis;
+            let m = (env.n_emis, env.wsum);
             if let Some(r) = eval(a, pos, env) {
                 return Some(r);
             }
-            env.n_emis = m;
+            (env.n_emis, env.wsum) = m;
             // E = the error the parse would report as primary had this failure been final
             let e = env.far;
             env.far = Far { set: false, pos: 0, exp: 0, custom: false };
@@ -546,11 +562,11 @@ pub fn eval(g: &G, pos: usize, env: &mut Env) -> R {
                 Strat::SkipUntil(skip, until) => {
                     let mut p = pos;
                     loop {
-                        let m2 = env.n_emis;
+                        let m2 = (env.n_emis, env.wsum);
                         if let Some((_, q)) = eval(until, p, env) {
                             break Some((Tr::tok(0xFB), q));
                         }
-                        env.n_emis = m2;
+                        (env.n_emis, env.wsum) = m2;
                         match eval(skip, p, env) {
                             Some((_, q)) => p = q,
                             None => break None,
@@ -560,9 +576,9 @@ pub fn eval(g: &G, pos: usize, env: &mut Env) -> R {
                 Strat::SkipRetry(skip, until) => {
                     let mut p = pos;
                     loop {
-                        let m2 = env.n_emis;
+                        let m2 = (env.n_emis, env.wsum);
                         let u = eval(until, p, env);
-                        env.n_emis = m2;
+                        (env.n_emis, env.wsum) = m2;
                         if u.is_some() {
                             break None;
                         }
@@ -570,11 +586,11 @@ pub fn eval(g: &G, pos: usize, env: &mut Env) -> R {
                             Some((_, q)) => p = q,
                             None => break None,
                         }
-                        let m3 = env.n_emis;
+                        let m3 = (env.n_emis, env.wsum);
                         match eval(a, p, env) {
-                            Some(r) if env.n_emis == m3 => break Some(r),
+                            Some(r) if env.n_emis == m3.0 => break Some(r),
                             _ => {
-                                env.n_emis = m3;
+                                (env.n_emis, env.wsum) = m3;
                                 env.far = Far { set: false, pos: 0, exp: 0, custom: false };
                             }
                         }
@@ -587,7 +603,7 @@ pub fn eval(g: &G, pos: usize, env: &mut Env) -> R {
                     Some((x, q))
                 }
                 None => {
-                    env.n_emis = m;
+                    (env.n_emis, env.wsum) = m;
                     env.far = e;
                     None
                 }
@@ -604,7 +620,7 @@ fn rep(a: &G, pos: usize, env: &mut Env, lo: Cnt, hi: Cnt) -> Option<([Tr; MAX_I
     let mut n = 0usize;
     let mut p = pos;
     while n < hi && n < MAX_ITEMS {
-        let m = env.n_emis;
+        let m = (env.n_emis, env.wsum);
         match eval(a, p, env) {
             Some((x, q)) => {
                 items[n] = x;
@@ -612,7 +628,7 @@ fn rep(a: &G, pos: usize, env: &mut Env, lo: Cnt, hi: Cnt) -> Option<([Tr; MAX_I
                 p = q;
             }
             None => {
-                env.n_emis = m;
+                (env.n_emis, env.wsum) = m;
                 break;
             }
         }
@@ -641,20 +657,20 @@ fn sep_by(
     let mut n = 0usize;
     // `p` = position after the last accepted item (or `pos`)
     let mut p = pos;
-    let m0 = env.n_emis;
+    let m0 = (env.n_emis, env.wsum);
     loop {
         if n >= hi || n >= MAX_ITEMS {
             // bound reached. A trailing separator MAY be consumed if allowed (permissive corner, bit 0)
             if trail && n > 0 && env.perm & 1 == 1 {
-                let m = env.n_emis;
+                let m = (env.n_emis, env.wsum);
                 match eval(sep, p, env) {
                     Some((_, q)) => p = q,
-                    None => env.n_emis = m,
+                    None => (env.n_emis, env.wsum) = m,
                 }
             }
             break;
         }
-        let m = env.n_emis;
+        let m = (env.n_emis, env.wsum);
         // separator (between items) or optional leading separator
         let mut q = p;
         let mut took_sep = false;
@@ -665,21 +681,21 @@ fn sep_by(
                     took_sep = true;
                 }
                 None => {
-                    env.n_emis = m;
+                    (env.n_emis, env.wsum) = m;
                     break;
                 }
             }
         } else if lead {
-            let ml = env.n_emis;
+            let ml = (env.n_emis, env.wsum);
             match eval(sep, p, env) {
                 Some((_, q2)) => {
                     q = q2;
                     took_sep = true;
                 }
-                None => env.n_emis = ml,
+                None => (env.n_emis, env.wsum) = ml,
             }
         }
-        let mi = env.n_emis;
+        let mi = (env.n_emis, env.wsum);
         match eval(item, q, env) {
             Some((x, q2)) => {
                 items[n] = x;
@@ -690,10 +706,10 @@ fn sep_by(
                 // item failed: the separator just consumed is a trailing one if allowed, else given back
                 // (zero items: whether a consumed LEADING separator stays consumed is the permissive corner)
                 if took_sep && ((trail && n > 0) || (n == 0 && env.perm & 2 == 2)) {
-                    env.n_emis = mi;
+                    (env.n_emis, env.wsum) = mi;
                     p = q;
                 } else {
-                    env.n_emis = m;
+                    (env.n_emis, env.wsum) = m;
                 }
                 break;
             }
@@ -702,7 +718,7 @@ fn sep_by(
     if n >= lo && n <= hi {
         Some((items, n, p))
     } else {
-        env.n_emis = m0;
+        (env.n_emis, env.wsum) = m0;
         None
     }
 }
